@@ -12,6 +12,8 @@ range in order, `count` = number of accepting / storing results):
   index = `(b0 b1 b2) * 8 + k`
 * `put <lo> <hi>`             — `charSize c` and `putChar room c` for `room` = 0..4, `c ∈ [lo, hi)`
 * `seq <lo> <hi>`             — `seqSize b` for `b ∈ [lo, hi)`
+* `seqc <lo> <hi>`            — the same through `char` / `signed char` / `unsigned char` arguments
+* `rt <lo> <hi>`              — `putChar 4 c` then `getChar` on the stored bytes, `c ∈ [lo, hi)`
 
 Direct ops (used for replays, boundary cases and strings):
 `vseq <hex>`, `getc <hex>`, `putc <hexcode> <room>`, `seqsize <hexbyte>`, `charsize <hexcode>`,
@@ -92,6 +94,31 @@ partial def loopSeq (b hi h n : UInt64) : UInt64 × UInt64 :=
   let r := (seqSize (BitVec.ofNat 8 b.toNat)).toNat.toUInt64
   loopSeq (b + 1) hi (mix h r) (if r != 0 then n + 1 else n)
 
+/-- `utf8_seq_size` called through a `char`, a `signed char` and an `unsigned char` lvalue: a
+caller hands over a *byte*, so all three are `seqSize` of that byte -/
+partial def loopSeqC (b hi h n : UInt64) : UInt64 × UInt64 :=
+  if b >= hi then (h, n) else
+  let r := (seqSize (BitVec.ofNat 8 b.toNat)).toNat.toUInt64
+  let v := r ||| (r <<< 8) ||| (r <<< 16)
+  loopSeqC (b + 1) hi (mix h v) (if v != 0 then n + 1 else n)
+
+/-- `putChar 4 c`, then `getChar` on exactly the bytes stored -/
+def roundTrip (c : UInt64) : Bool × Nat × BitVec 32 × Nat :=
+  let r := putChar 4 (BitVec.ofNat 32 c.toNat)
+  if r.1 && r.2.1 > 0 then
+    let g := getCharL r.2.2
+    (true, r.2.1, g.1, g.2)
+  else (r.1, 0, 0#32, 0)
+
+partial def loopRt (c hi h n : UInt64) : UInt64 × UInt64 :=
+  if c >= hi then (h, n) else
+  let r := roundTrip c
+  let v : UInt64 :=
+    if r.2.1 > 0 then r.2.2.1.toNat.toUInt64 ||| (r.2.2.2.toUInt64 <<< 32) ||| (r.2.1.toUInt64 <<< 40)
+    else 0xFFFFFFFFFFFFFFFF ^^^ (if r.1 then 1 else 0)
+  let good := r.2.1 > 0 && r.2.2.1.toNat.toUInt64 == (c &&& 0xFFFFFFFF) && r.2.2.2 == r.2.1
+  loopRt (c + 1) hi (mix h v) (if good then n + 1 else n)
+
 def hex64 (x : UInt64) : String :=
   String.ofList ((List.range 16).map fun k => hexDigit ((x >>> (60 - 4 * k).toUInt64) &&& 0xF).toNat)
 
@@ -133,6 +160,33 @@ def step (line : String) : String :=
     | some lo, some hi =>
       if lo ≤ hi && hi ≤ 256 then showHN (loopSeq lo.toUInt64 hi.toUInt64 hashInit 0) else "bad-op"
     | _, _ => "bad-op"
+  | ["seqc", lo, hi] =>
+    match lo.toNat?, hi.toNat? with
+    | some lo, some hi =>
+      if lo ≤ hi && hi ≤ 256 then showHN (loopSeqC lo.toUInt64 hi.toUInt64 hashInit 0) else "bad-op"
+    | _, _ => "bad-op"
+  | ["rt", lo, hi] =>
+    match lo.toNat?, hi.toNat? with
+    | some lo, some hi =>
+      if lo ≤ hi && hi ≤ 2 ^ 32 then showHN (loopRt lo.toUInt64 hi.toUInt64 hashInit 0) else "bad-op"
+    | _, _ => "bad-op"
+  | ["seqsizec", b] =>
+    match parseHexNat b with
+    | some b =>
+      if b < 256 then
+        let r := (seqSize (BitVec.ofNat 8 b)).toNat
+        s!"{r} {r} {r}"
+      else "bad-op"
+    | none => "bad-op"
+  | ["rtc", c] =>
+    match parseHexNat c with
+    | some c =>
+      if c < 2 ^ 32 then
+        let r := roundTrip c.toUInt64
+        if r.2.1 > 0 then s!"{boolStr r.1} {r.2.1} {r.2.2.1.toInt} {r.2.2.2}"
+        else s!"{boolStr r.1} 0 - -"
+      else "bad-op"
+    | none => "bad-op"
   | ["vseq", h] =>
     match parseHex h with
     | some (b :: bs) => toString (validateSeqU (b :: bs))
